@@ -706,3 +706,43 @@ Proof.
         -- rewrite str_eqb_refl in E. discriminate.
         -- exists rs1, r0, rs2, kvs0. repeat split; auto. intros r' Hin. apply Hnone. right. exact Hin.
 Qed.
+
+(* ------------------------------------------------------------------------------------- *)
+(* D. [spec] as inference rules                                                           *)
+
+Lemma matches_spec ps segs vals : matches ps segs vals -> spec ps segs = Some vals.
+Proof.
+  induction 1; cbn [spec]; try reflexivity.
+  - rewrite str_eqb_refl. exact IHmatches.
+  - destruct g as [|c g]; [congruence|]. cbn [is_empty]. rewrite IHmatches. reflexivity.
+  - destruct segs; [congruence|reflexivity].
+  - destruct segs as [|g [|h segs]]; [congruence| |reflexivity].
+    destruct g; [congruence|reflexivity].
+Qed.
+
+Lemma spec_matches ps : wf_pieces ps = true -> forall segs vals,
+  spec ps segs = Some vals -> matches ps segs vals.
+Proof.
+  induction ps as [|p ps IH]; intros Hwf segs vals H.
+  - cbn in H. destruct segs as [|g [|]]; try discriminate.
+    + inversion H. constructor.
+    + destruct g; inversion H. constructor.
+  - pose proof (wf_pieces_tl _ _ Hwf) as Hwf'.
+    destruct p as [l|n|n|n|n].
+    + cbn in H. destruct segs as [|g segs]; [discriminate|].
+      destruct (str_eqb g l) eqn:E; [|discriminate]. apply str_eqb_eq in E. subst g.
+      constructor. apply IH; assumption.
+    + cbn in H. destruct segs as [|g segs]; [discriminate|].
+      destruct g as [|c g]; [discriminate|]. cbn [is_empty] in H.
+      destruct (spec ps segs) eqn:E; [|discriminate]. inversion H; subst.
+      constructor; [discriminate|]. apply IH; assumption.
+    + rewrite (wf_pieces_wild_last _ _ Hwf eq_refl) in *. cbn in H.
+      destruct segs as [|g [|e [|]]]; try discriminate; try (inversion H; constructor).
+      destruct e; inversion H. constructor.
+    + rewrite (wf_pieces_wild_last _ _ Hwf eq_refl) in *. cbn in H.
+      destruct segs as [|g segs]; inversion H; constructor. discriminate.
+    + rewrite (wf_pieces_wild_last _ _ Hwf eq_refl) in *. cbn in H.
+      destruct segs as [|g [|h segs]]; try discriminate.
+      * destruct g as [|c g]; inversion H. apply (M_plus n [c :: g]); discriminate.
+      * inversion H. constructor; discriminate.
+Qed.
